@@ -164,6 +164,8 @@ pub(crate) fn recurse<R, F: FnOnce() -> R>(f: F) -> R {
 #[cfg(not(feature = "stacker"))]
 #[inline]
 pub(crate) fn recurse<R, F: FnOnce() -> R>(f: F) -> R {
+    #[cfg(any(kani, chumsky_verif))]
+    let _verif_guard = crate::input::verif::fw::RecurseGuard::enter();
     f()
 }
 
